@@ -171,6 +171,8 @@ pub const PATHS: &[&str] = &[
     "/foo%2Fbar",
     "/ads%20foo/bar",
     "/a0123456789b0123456789c0123456789d0123456789e0123456789f0123456789g012345/ads/foo",
+    // rule tokens that occur in the fragment only
+    "/x#/ads/foo/bar",
 ];
 
 /// Paths with non-ASCII characters next to rule tokens: letters (token characters) and punctuation
